@@ -1,6 +1,7 @@
 package storage
 
 import (
+	"math"
 	"github.com/flowmatters/openwater-core/data"
 	"github.com/flowmatters/openwater-core/zzverif/vsym"
 )
@@ -114,6 +115,28 @@ func c13storage(which int, balanceOnly bool) {
 		vsym.Assert(outTS.Get1(0) <= mx.Get1(n-1)+1e-9 || outTS.Get1(0) <= demand+1e-9, "release-at-most-max-curve-or-demand-when-not-spilling")
 	}
 	vsym.Assert(outTS.Get1(0) >= mn.Get1(0)-1e-9 || v1 == 0, "release-at-least-lowest-min-release")
+	// the explored paths (loops cut at one iteration) take the whole day as ONE sub-step without
+	// halving; the volumes the model evaluates the release curves at are then the initial volume
+	// and its own predictor tB (initial volume + (inflow - release(v0) + net atmospheric flux on the
+	// mid-step area) x dt), transcribed here from the documented scheme.  Both are 30 s
+	// counterexample searches followed by native probing (incl. degenerate corner points), not
+	// proofs: the solver does not decide them on the fixed tables within the quick budget
+	atm := (rain - pet) / dt * 0.001
+	rel := func(v float64) float64 {
+		lo, hi := c13interp(v, vol, mn, n), c13interp(v, vol, mx, n)
+		return math.Max(lo, math.Min(hi, demand))
+	}
+	r0 := rel(v0)
+	tA := v0 + ((inflow-r0)+atm*c13interp(v0, vol, ar, n))*dt
+	tB := v0 + ((inflow-r0)+atm*c13interp((tA+v0)/2, vol, ar, n))*dt
+	if tA >= 0 && tB >= 0 {
+		lo := math.Min(c13interp(v0, vol, mn, n), c13interp(tB, vol, mn, n))
+		vsym.Hunt(outTS.Get1(0) >= lo-1e-9, "release-at-least-min-curve-over-volumes-traversed")
+		inside := demand >= math.Max(c13interp(v0, vol, mn, n), c13interp(tB, vol, mn, n)) && demand <= math.Min(c13interp(v0, vol, mx, n), c13interp(tB, vol, mx, n))
+		if inside && v1 < vmax && v0 <= vmax {
+			vsym.HuntNear(outTS.Get1(0), demand, 1e-9, 1e-9, "release-equals-demand-when-between-the-curves")
+		}
+	}
 }
 
 // H_C13_storage_2pt: one daily timestep of the Storage model on a fixed 2-point level-volume-area
